@@ -381,4 +381,22 @@ theorem quietRun_queueing (q : Quirks) (cid now : Nat) (cmds : List Cmd) (c : Co
     · simp [connEvent, connStep, hne, hx.2.1, hin, himm, hx.2.2]
     · intro y hy; exact hc y (by simp [hy])
 
+/-- queueable commands sent while in a transaction only extend the queue, in order -/
+theorem fold_queueing (q : Quirks) (cid now : Nat) (cmds : List Cmd) (c : Conn)
+    (hin : c.inTx = true) (hc : ∀ x ∈ cmds, queueable q x = true) :
+    (framesOf cid now cmds).foldl (connEvent q) c = { c with queue := c.queue ++ cmds } := by
+  induction cmds generalizing c with
+  | nil => simp [framesOf]
+  | cons x xs ih =>
+    have hx := (queueable_iff q x).1 (hc x (by simp))
+    have hne : x.isEmpty = false := by cases x <;> simp_all
+    have hstep : connEvent q c (.frame cid { cmd := x, now := now }) = { c with queue := c.queue ++ [x] } := by
+      simp [connEvent, connStep, hne, hx.2.1, hin, hx.2.2]
+    simp only [framesOf, List.map_cons, List.foldl_cons]
+    rw [hstep]
+    have := ih { c with queue := c.queue ++ [x] } hin (fun y hy => hc y (by simp [hy]))
+    simp only [framesOf] at this
+    rw [this]
+    simp
+
 end Ferrous.Tx
